@@ -187,10 +187,14 @@ def parse_swc(
     flag = True
 
     comments = []
+    n_leading = -1  # number of comment lines in front of the first row
     with FileReader(fname, encoding=encoding) as f:
         try:
             for i, line in enumerate(f):
                 if (match := re_swc.search(line)) is not None:
+                    if n_leading < 0:
+                        n_leading = len(comments)
+
                     if flag and match.group(last_group):
                         warnings.warn(
                             f"some fields are ignored in row {i+1} of `{fname}`"
@@ -201,14 +205,21 @@ def parse_swc(
                         vals[i].append(trans(match.group(i + 1)))
                 elif match := RE_COMMENT.match(line):
                     comment = line[len(match.group(0)) :].removesuffix("\n")
-                    if not comment.startswith(ignored_comment):
-                        comments.append(comment)
+                    comments.append(comment)
                 elif not line.isspace():
                     raise ValueError(f"invalid row {i+1} in `{fname}`")
         except UnicodeDecodeError as e:
             raise ValueError(
                 f"decode failed, try to enable auto detect `encoding='detect'`"
             ) from e
+
+    # `to_swc` writes its column header as the last comment line in front
+    # of the rows: only there such a line is not a comment of the file
+    if n_leading < 0:
+        n_leading = len(comments)
+
+    if n_leading > 0 and comments[n_leading - 1].startswith(ignored_comment):
+        del comments[n_leading - 1]
 
     df = pd.DataFrame.from_dict(dict(zip(keys, vals)))
     return df, comments
